@@ -4,6 +4,7 @@ CONSTANTS
   DevPerHandle = FALSE
   DevUnguardedFill = TRUE
   DevFillOnError = FALSE
+  DevKeyNoMethod = FALSE
   NR = 2
   MaxFaults = 0
 VIEW MView
